@@ -374,6 +374,18 @@ class IndividualBOSS(BaseClassifier):
     def fit(self, X, y):
         X, y = check_X_y(X, y, enforce_univariate=True, coerce_to_numpy=True)
 
+        # the transformer is built from the current parameter values: the one made
+        # in the constructor ignores a later set_params
+        self.transformer = SFA(
+            word_length=self.word_length,
+            alphabet_size=self.alphabet_size,
+            window_size=self.window_size,
+            norm=self.norm,
+            remove_repeat_words=True,
+            bigrams=False,
+            save_words=self.save_words,
+            n_jobs=self.n_jobs,
+        )
         sfa = self.transformer.fit_transform(X)
         self.transformed_data = sfa[0]
 
